@@ -19,6 +19,8 @@ EXTENDS NdArray, Json, TLC, TLCExt, IOUtils
 
 CONSTANTS
   Acts,       \* set of enabled action names
+  Acts2,      \* action names enabled after the first non-source action ({} = same as Acts): directed corpora,
+              \* e.g. "anything, then an operation the optimizer pushes down"
   MaxLen,     \* maximal number of non-source actions
   SrcPreset,  \* which source shapes / kinds Init offers
   Sim,        \* TRUE: parameters are picked with RandomElement (use with -simulate)
@@ -108,13 +110,18 @@ Start ==
 
 NActs == Cardinality({j \in 1..Len(prog) : prog[j].a # "Source"})
 CanStep == env # <<>> /\ NActs < MaxLen
+Allowed(a) == IF NActs = 0 \/ Acts2 = {} THEN a \in Acts ELSE a \in Acts2
 
 Operands(act) ==
   (IF "x" \in DOMAIN act THEN {act.x} ELSE {}) \cup (IF "y" \in DOMAIN act THEN {act.y} ELSE {})
   \cup (IF "c" \in DOMAIN act THEN {act.c} ELSE {}) \cup (IF "xs" \in DOMAIN act THEN {act.xs[j] : j \in 1..Len(act.xs)} ELSE {})
 PairOK(act) == \A h \in Operands(act) \ {0} : (prog[h].a \o ">" \o act.a) \notin ExclPairs /\ (prog[h].a \o ">*") \notin ExclPairs
+\* lean (exhaustive deep) corpora: every action after the first consumes the most recent collection, so
+\* a program of depth n is a genuine n-fold composition (operations on older handles are programs of the
+\* shallower corpora); binary operations may still combine it with any older collection (sharing)
+ChainOK(act) == ~Lean \/ Sim \/ NActs = 0 \/ Len(env) \in Operands(act)
 Push(act, val) ==
-  /\ PairOK(act)
+  /\ PairOK(act) /\ ChainOK(act)
   /\ env' = Append(env, val)
   /\ prog' = Append(prog, act @@ [out |-> Len(env) + 1])
 
@@ -168,7 +175,7 @@ SetToSeqAsc(S) == SetToSortSeq(S, LAMBDA x, y : x < y)
 (* Actions                                                                 *)
 (***************************************************************************)
 Index ==
-  /\ "Index" \in Acts /\ CanStep
+  /\ Allowed("Index") /\ CanStep
   /\ \E x \in Pick(Live) : \E idx \in IdxTuples(env[x].shape) :
        Push([a |-> "Index", x |-> x, idx |-> idx, ok |-> IndexOK(env[x].shape, idx)],
             IF IndexOK(env[x].shape, idx) THEN BasicIndex(env[x], idx) ELSE Err)
@@ -179,7 +186,7 @@ OpOK(op, k1, k2) ==
   IF op \in ArithOps THEN ~(k1 = "b" /\ k2 = "b")           \* bool-bool arithmetic stays bool in NumPy: not modelled
   ELSE TRUE
 Elemwise ==
-  /\ "Elemwise" \in Acts /\ CanStep
+  /\ Allowed("Elemwise") /\ CanStep
   /\ \E x \in Pick(Live) : \E op \in Pick(L(BinOps, {"add", "mul", "lt", "maximum"})) :
        \/ \E y \in Pick({h \in Live : BroadcastCompatible(env[x].shape, env[h].shape)
                                         /\ SmallEnough(BroadcastShapes(env[x].shape, env[h].shape))}) :
@@ -192,32 +199,32 @@ Elemwise ==
                     IF sw THEN Binary(op, Scalar(sv, sk), env[x]) ELSE Binary(op, env[x], Scalar(sv, sk)))
 
 UnaryAct ==
-  /\ "Unary" \in Acts /\ CanStep
+  /\ Allowed("Unary") /\ CanStep
   /\ \E x \in Pick(Live) : \E op \in Pick(L(UnOps, {"negative", "abs"})) :
        /\ (op # "logical_not" => env[x].kind # "b" \/ TRUE)
        /\ (op \in {"negative", "square"} => env[x].kind # "b")
        /\ Push([a |-> "Unary", op |-> op, x |-> x], Unary(op, env[x]))
 
 AsTypeAct ==
-  /\ "AsType" \in Acts /\ CanStep
+  /\ Allowed("AsType") /\ CanStep
   /\ \E x \in Pick(Live) : \E k \in Pick(L(Kinds, {"f", "b"})) :
        \* float -> int truncation is not modelled
        /\ ~(env[x].kind = "f" /\ k = "i")
        /\ Push([a |-> "AsType", x |-> x, kind |-> k], AsType(env[x], k))
 
 TransposeAct ==
-  /\ "Transpose" \in Acts /\ CanStep
+  /\ Allowed("Transpose") /\ CanStep
   /\ \E x \in Pick({h \in Live : Rank(env[h]) >= 1}) : \E p \in Pick(Perms(Rank(env[x]))) :
        Push([a |-> "Transpose", x |-> x, perm |-> p], Transpose(env[x], p))
 
 ReshapeAct ==
-  /\ "Reshape" \in Acts /\ CanStep
+  /\ Allowed("Reshape") /\ CanStep
   /\ \E x \in Pick(Live) :
        \E s \in Pick({f \in Factorizations(Size(env[x].shape)) : ValidFactorization(f, Size(env[x].shape))}) :
          Push([a |-> "Reshape", x |-> x, shape |-> s], Reshape(env[x], s))
 
 ExpandSqueeze ==
-  /\ "ExpandSqueeze" \in Acts /\ CanStep
+  /\ Allowed("ExpandSqueeze") /\ CanStep
   /\ \E x \in Pick(Live) :
        \/ /\ Rank(env[x]) <= 3
           /\ \E p \in Pick(1..(Rank(env[x]) + 1)) :
@@ -226,7 +233,7 @@ ExpandSqueeze ==
             Push([a |-> "Squeeze", x |-> x, axis |-> ax], SqueezeAxis(env[x], ax))
 
 FlipRoll ==
-  /\ "FlipRoll" \in Acts /\ CanStep
+  /\ Allowed("FlipRoll") /\ CanStep
   /\ \E x \in Pick({h \in Live : Rank(env[h]) >= 1}) : \E ax \in Pick(1..Rank(env[x])) :
        \/ Push([a |-> "Flip", x |-> x, axis |-> ax], Flip(env[x], ax))
        \/ \E sh \in Pick(L((-env[x].shape[ax] - 1)..(env[x].shape[ax] + 1), {1, -2})) :
@@ -235,7 +242,7 @@ FlipRoll ==
 
 ConcatOK(s1, s2, ax) == Len(s1) = Len(s2) /\ \A b \in 1..Len(s1) : b = ax \/ s1[b] = s2[b]
 ConcatStack ==
-  /\ "Concat" \in Acts /\ CanStep
+  /\ Allowed("Concat") /\ CanStep
   /\ \E x \in Pick({h \in Live : Rank(env[h]) >= 1}) : \E ax \in Pick(1..Rank(env[x])) :
        \/ \E y \in Pick({h \in Live : ConcatOK(env[x].shape, env[h].shape, ax)}) :
             \/ /\ SmallEnough([b \in 1..Rank(env[x]) |-> IF b = ax THEN env[x].shape[b] + env[y].shape[b] ELSE env[x].shape[b]])
@@ -249,7 +256,7 @@ ConcatStack ==
             /\ Push([a |-> "Stack", xs |-> <<x, y>>, pos |-> pos], Stack(<<env[x], env[y]>>, pos))
 
 RechunkAct ==
-  /\ "Rechunk" \in Acts /\ CanStep
+  /\ Allowed("Rechunk") /\ CanStep
   /\ \E x \in Pick({h \in Live : Rank(env[h]) >= 1 /\ Rank(env[h]) <= 3}) :
        \E g \in PickGrid(env[x].shape) :
          Push([a |-> "Rechunk", x |-> x, chunks |-> g], env[x])
@@ -260,7 +267,7 @@ RedOpOK(op, A) ==
   /\ (op \in {"mean", "var", "nanmean"} => Size(A.shape) <= 24)
   /\ (op = "ptp" => A.kind # "b")
 ReduceAct ==
-  /\ "Reduce" \in Acts /\ CanStep
+  /\ Allowed("Reduce") /\ CanStep
   /\ \E x \in Pick({h \in Live : Rank(env[h]) >= 1}) : \E op \in Pick(L(RedOps \ {"argmin", "argmax"}, {"sum", "max", "mean", "any"})) :
        \E axes \in Pick(AxisSubsets(Rank(env[x]))) : \E kd \in Pick(L({TRUE, FALSE}, {op = "sum" /\ Cardinality(axes) = 1})) :
          \E se \in Pick(L({0, 2, 3}, {IF op \in {"sum", "mean"} THEN 2 ELSE 0})) :
@@ -271,7 +278,7 @@ ReduceAct ==
                  IF ReduceOK(op, env[x], axes) THEN Reduce(op, env[x], axes, kd) ELSE Err)
 
 ArgReduce ==
-  /\ "ArgReduce" \in Acts /\ CanStep
+  /\ Allowed("ArgReduce") /\ CanStep
   /\ \E x \in Pick({h \in Live : Rank(env[h]) >= 1}) : \E op \in Pick(L({"argmin", "argmax"}, {"argmax"})) : \E se \in Pick(L({0, 2, 3}, {2})) :
        \/ \E ax \in Pick(1..Rank(env[x])) : \E kd \in Pick(L({TRUE, FALSE}, {FALSE})) :
             Push([a |-> "Reduce", op |-> op, x |-> x, axes |-> <<ax>>, keepdims |-> kd, split_every |-> se,
@@ -281,19 +288,19 @@ ArgReduce ==
                IF Size(env[x].shape) > 0 THEN ArgFlat(op, env[x]) ELSE Err)
 
 CumulativeAct ==
-  /\ "Cumulative" \in Acts /\ CanStep
+  /\ Allowed("Cumulative") /\ CanStep
   /\ \E x \in Pick({h \in Live : Rank(env[h]) >= 1}) : \E ax \in Pick(1..Rank(env[x])) :
        \E op \in Pick(L({"cumsum", "cumprod"}, {"cumsum"})) : \E m \in Pick({"sequential", "blelloch"}) :
          /\ (op = "cumprod" => RedOpOK("prod", env[x]))
          /\ Push([a |-> "Cumulative", op |-> op, x |-> x, axis |-> ax, method |-> m], Cumulative(op, env[x], ax))
 
 DiffAct ==
-  /\ "Diff" \in Acts /\ CanStep
+  /\ Allowed("Diff") /\ CanStep
   /\ \E x \in Pick({h \in Live : Rank(env[h]) >= 1 /\ env[h].kind # "b"}) : \E ax \in Pick(1..Rank(env[x])) :
        Push([a |-> "Diff", x |-> x, axis |-> ax], Diff(env[x], ax))
 
 WhereAct ==
-  /\ "Where" \in Acts /\ CanStep
+  /\ Allowed("Where") /\ CanStep
   /\ \E c \in Pick(Live) :
        \E x \in Pick({h \in Live : BroadcastCompatible(env[c].shape, env[h].shape)}) :
          \E y \in Pick({h \in Live : /\ BroadcastCompatible(BroadcastShapes(env[c].shape, env[x].shape), env[h].shape)}) :
@@ -304,7 +311,7 @@ WhereAct ==
 TakeLists(n) == IF n = 0 THEN {<<>>} ELSE {<<p>> : p \in (-n)..(n - 1)} \cup {<<p, q>> : p \in (-n)..(n - 1), q \in (-n)..(n - 1)}
                                           \cup {<<p, q, s>> : p \in 0..(n - 1), q \in (-n)..(n - 1), s \in 0..(n - 1)}
 TakeAct ==
-  /\ "Take" \in Acts /\ CanStep
+  /\ Allowed("Take") /\ CanStep
   /\ \E x \in Pick({h \in Live : Rank(env[h]) >= 1}) : \E ax \in Pick(1..Rank(env[x])) :
        \E lst \in Pick(L(TakeLists(env[x].shape[ax]),
                           IF env[x].shape[ax] = 0 THEN {<<>>} ELSE {<<env[x].shape[ax] - 1, 0>>, <<0, -1, 0>>})) :
@@ -312,7 +319,7 @@ TakeAct ==
               Take(env[x], [j \in 1..Len(lst) |-> PosInt(lst[j], env[x].shape[ax])], ax))
 
 BroadcastAct ==
-  /\ "BroadcastTo" \in Acts /\ CanStep
+  /\ Allowed("BroadcastTo") /\ CanStep
   /\ \E x \in Pick({h \in Live : Rank(env[h]) <= 2}) : \E lead \in Pick(L({<<>>, <<1>>, <<2>>, <<3>>}, {<<>>, <<2>>})) :
        \* every size-1 axis may be stretched (bound once: RandomElement must not be re-evaluated)
        \E stretch \in Pick([1..Rank(env[x]) -> {1, 3}]) :
@@ -321,7 +328,7 @@ BroadcastAct ==
             /\ Push([a |-> "BroadcastTo", x |-> x, shape |-> target], BroadcastTo(env[x], target))
 
 WindowAct ==
-  /\ "Window" \in Acts /\ CanStep
+  /\ Allowed("Window") /\ CanStep
   /\ \E x \in Pick({h \in Live : Rank(env[h]) >= 1 /\ Rank(env[h]) <= 2}) : \E ax \in Pick(1..Rank(env[x])) :
        \E w \in Pick(L(1..Max2(env[x].shape[ax], 1), {2, env[x].shape[ax]})) :
          /\ w <= env[x].shape[ax] /\ w >= 1
@@ -331,7 +338,7 @@ WindowAct ==
 
 \* sliding-window reduction in one step (the pattern the optimizer substitutes a native kernel for)
 WindowReduce ==
-  /\ "WindowReduce" \in Acts /\ CanStep
+  /\ Allowed("WindowReduce") /\ CanStep
   /\ \E x \in Pick({h \in Live : Rank(env[h]) >= 1 /\ Rank(env[h]) <= 2}) : \E ax \in Pick(1..Rank(env[x])) :
        \E w \in Pick(L(1..Max2(env[x].shape[ax], 1), {2, 3})) :
          \E op \in Pick(L({"sum", "min", "max", "mean", "prod", "any", "all", "var"}, {"sum", "max"})) :
@@ -341,7 +348,7 @@ WindowReduce ==
                  Reduce(op, SlidingWindow(env[x], w, ax), {Rank(env[x]) + 1}, FALSE))
 
 DotAct ==
-  /\ "Dot" \in Acts /\ CanStep
+  /\ Allowed("Dot") /\ CanStep
   /\ \E x \in Pick({h \in Live : Rank(env[h]) \in {1, 2}}) :
        \E y \in Pick({h \in Live : Rank(env[h]) \in {1, 2} /\ env[h].shape[1] = env[x].shape[Rank(env[x])]}) :
          /\ env[x].shape[Rank(env[x])] <= 6
@@ -351,7 +358,7 @@ DotAct ==
          /\ Push([a |-> "Dot", x |-> x, y |-> y], Dot(env[x], env[y]))
 
 PadRepeat ==
-  /\ "PadRepeat" \in Acts /\ CanStep
+  /\ Allowed("PadRepeat") /\ CanStep
   /\ \E x \in Pick({h \in Live : Rank(env[h]) >= 1 /\ Rank(env[h]) <= 3}) : \E ax \in Pick(1..Rank(env[x])) :
        \/ \E bf \in Pick(L(0..2, {1})) : \E af \in Pick(L(0..2, {0, 2})) :
             \E mode \in Pick(L({"constant", "edge", "reflect", "wrap"}, {"constant", "reflect"})) :
@@ -366,7 +373,7 @@ PadRepeat ==
                     IF kind = "Repeat" THEN Repeat(env[x], reps, ax) ELSE Tile1(env[x], reps, ax))
 
 TopKAct ==
-  /\ "TopK" \in Acts /\ CanStep
+  /\ Allowed("TopK") /\ CanStep
   /\ \E x \in Pick({h \in Live : Rank(env[h]) >= 1 /\ env[h].shape[Rank(env[h])] >= 1 /\ env[h].kind # "b"}) :
        \E kk \in Pick(L({-3, -2, -1, 1, 2, 3}, {2, -1})) :
          /\ \A j \in 1..Len(env[x].data) : ~VIsNaN(env[x].data[j], env[x].kind)
